@@ -28,7 +28,7 @@ class Gen:
     def choose(s, name, k): return s.e.choose(name, k)
 
 
-def gen_doc(e, shape, L, final_nl_free=True, w=2, cont_hash=False):
+def gen_doc(e, shape, L, final_nl_free=True, w=2, cont_hash=False, blank_cont=False):
     """returns (text: list of chars, paras: [[(name chars, [line chars...])...]...], kinds: [line kinds])
 
     S1: one layout per line kind: 'k: v' / ' v' / '#c' / '' with 1-char names and value lines, chars fully symbolic
@@ -61,6 +61,8 @@ def gen_doc(e, shape, L, final_nl_free=True, w=2, cont_hash=False):
             if shape == 'S3':
                 ind = [(32 if g.choose('it', 2) == 0 else 9) for _ in range(g.choose('il', w) + 1)]
                 v = [g.ch('v', valstart if cont_hash else contstart)] + ([g.ch('v', valch)] if g.choose('vl', 2) else [])
+            elif blank_cont and g.choose('blankc', 2):
+                ind = [32 if g.choose('it', 2) == 0 else 9]; v = []        # a continuation line of whitespace only
             else:
                 ind = [32]
                 v = [g.ch('v', valstart if cont_hash else contstart)]
